@@ -88,6 +88,10 @@ class World:
         env = self.env
         self.notifications = notifications = ctlmod.Notifications()
         self.db = db = dbmod.DB(env)
+        # scaled-down storage parameters (see realindex.scale_storage): split files of 3 headers / 5 counts / 7 hashes
+        from harness.world.realindex import scale_storage
+        scale_storage(db, self.dir, _counter[0])
+        bpmod.OnDiskBlock.chunk_size = [25_000_000, 131, 25_000_000, 257, 25_000_000, 1031][_counter[0] % 6]
         if self.gated_storage:
             from harness.world.gates import gate_db
             gate_db(db)
